@@ -10,6 +10,8 @@ import (
 	"go/types"
 	"sort"
 	"strings"
+
+	"golang.org/x/tools/go/ssa"
 )
 
 func init() {
@@ -243,6 +245,71 @@ func runC05(c *Ctx, r *Report) {
 	mergedHeadObjects(c, r, "R-C05.7")
 	r.Doc("R-C05.8", "every insertion into an entry map is keyed by the inserted entry's own hash, by the key it was looked up with, or (predecessor index) by one of its own links")
 	indexKeys(c, r, "R-C05.8")
+	r.Doc("R-C05.9", "a copied entry shares no mutable map or clock object with its original: Copy stores a freshly made map and a fresh clock (the link-encrypting codec and the signer write into the copy's additional data)")
+	{
+		cp := p.FuncI("entry", "Entry", "Copy")
+		scp := p.SSAFunc(cp)
+		entT := p.Named("entry", "Entry")
+		ncp := 0
+		allInstrs(scp, false, func(ins ssa.Instruction) {
+			st, ok := ins.(*ssa.Store)
+			if !ok {
+				return
+			}
+			f, fa := fieldOf(st.Addr)
+			if f == nil || namedOf(fa.X.Type()) != entT {
+				return
+			}
+			if _, isAlloc := fa.X.(*ssa.Alloc); !isAlloc {
+				return
+			}
+			_, isMap := f.Type().Underlying().(*types.Map)
+			isClock := f.Name() == "Clock"
+			if !isMap && !isClock {
+				return
+			}
+			ncp++
+			shared := ""
+			var leaves func(v ssa.Value, depth int)
+			leaves = func(v ssa.Value, depth int) {
+				if depth > 6 {
+					return
+				}
+				switch x := v.(type) {
+				case *ssa.Phi:
+					for _, e := range x.Edges {
+						leaves(e, depth+1)
+					}
+				case *ssa.MakeMap, *ssa.Const, *ssa.Call, *ssa.Alloc:
+					// fresh map, nil, the result of a copying helper, a new object
+				case *ssa.UnOp:
+					if x.Op == token.MUL {
+						if a, ok := x.X.(*ssa.Alloc); ok {
+							for _, s2 := range cellStores(a) {
+								leaves(s2.Val, depth+1)
+							}
+							return
+						}
+						if f2, _ := fieldOf(x.X); f2 != nil {
+							shared = "the original's " + f2.Name()
+							return
+						}
+					}
+					shared = "a value loaded from the original"
+				case *ssa.ChangeType:
+					leaves(x.X, depth+1)
+				case *ssa.MakeInterface:
+					leaves(x.X, depth+1)
+				default:
+					shared = "a value that is not freshly made"
+				}
+			}
+			leaves(st.Val, 0)
+			r.Check(shared == "", "R-C05.9", r.Key("R-C05.9", cp, "fresh", f.Name()), st.Pos(), "the copy's "+f.Name()+" is a freshly made object",
+				"the copy's "+f.Name()+" can be "+shared+" itself: writing into the copy (the pre-sign step does) changes the entry another log holds")
+		})
+		r.Floor("R-C05.9", "map/clock fields set by Entry.Copy", ncp, 2)
+	}
 	appendSingleSection(c, r, "R-C05.4", "a merge or append landing in the window has its heads overwritten: entries stay in the index but disappear from Values(), so successive views are not subsequences")
 	fe := &freshEngine{p: p, cg: c.CG, mutators: map[string]bool{}, freshRet: map[*Fn]int{}}
 	for _, it := range []string{"IPFSLogEntry", "IPFSLogLamportClock"} {
